@@ -14,6 +14,12 @@ RULE = ("documents x stacks of 0..3 order-sensitive probe middlewares (library p
         "(append a block / a non-block, clear, reverse, pop), one probe object 1..3 times in a stack and used for two successive calls, "
         "through transform / parse_string / write_string: every block must be replaced, at its position, by what was answered for it as "
         "it was when answered. "
+        "MIDDLEWARE OBJECTS WITH EXTRA PROTOCOLS (stream proto): direct Middleware subclasses, LibraryMiddleware / BlockMiddleware probes and "
+        "subclasses of shipped middlewares that ALSO define __call__ (returning its argument / None / raising / taking no argument), "
+        "__iter__ (empty / yielding a foreign probe), __len__+__getitem__, __len__ == 0, __bool__ False, __eq__ always True, __eq__ without "
+        "__hash__, a __getattr__ fallback answering every unknown name with a function, alone and combined, 1..3 per stack next to plain "
+        "items, in every argument position of the four entry points and through transform: same composition, and transform() of every "
+        "item of the stack called exactly as often as the manual composition calls it (once). "
         "distinct = distinct case description; non-trivial = a non-empty stack or a non-trivial splice")
 TRUSTED = ["oracle instances supplied by the harness on every case: the graph of Splitter(text).split(), of every shipped middleware "
            "instance on the libraries it is applied to in the manual composition, of the codec (bytes.decode + universal newlines) "
@@ -71,7 +77,118 @@ OTHER_KINDS = ["gen", "iter", "int", "object", "true", "field", "library", "map"
                "emptygen"]
 
 
+# extra dunder / duck protocols a user's middleware class may define besides the middleware interface (stream proto)
+PROTOS = ["call_id", "call_none", "call_raise", "call_noargs", "iter_empty", "iter_mw", "seq", "len0", "bool_false", "eq_true",
+          "unhashable", "getattr", "getattr_none"]
+
+
+def core_d(d):
+    """The descriptor without its protocol decoration."""
+    return d[2] if d[0] == "x" else d
+
+
 # ------------------------------------------------------------------ generators
+def rxmw(rng, p_x=0.75):
+    """A middleware descriptor of the proto stream: any probe / shipped middleware, decorated with 1..3 extra protocols."""
+    inner = rmw(rng)
+    if inner[0] == "lib" and rng.random() < 0.4:
+        inner = ["mid"] + inner[1:]
+    if rng.random() >= p_x:
+        return inner
+    return ["x", rng.sample(PROTOS, rng.choice([1, 1, 1, 2, 2, 3])), inner]
+
+
+def rxstack(rng):
+    st = [rxmw(rng) for _ in range(rng.choice([1, 1, 2, 2, 3]))]
+    if not any(d[0] == "x" for d in st):
+        i = rng.randrange(len(st))
+        st[i] = ["x", [rng.choice(PROTOS)], st[i]]
+    return st
+
+
+def rxargs(rng):
+    r = rng.random()
+    if r < 0.45:
+        return rxstack(rng), None
+    if r < 0.9:
+        return None, rxstack(rng)
+    return rxstack(rng), rxstack(rng)
+
+
+def proto_cases(rng, n):
+    """MIDDLEWARE OBJECTS WITH EXTRA PROTOCOLS in every stack argument position of every entry point, and through transform."""
+    import props.c06 as c06
+    cases = []
+    plain = {c: ["self"] for c in CLASSES}
+    bases = [lambda i: ["mid", 3 + i % 5, i % 3 != 0], lambda i: ["lib", 3 + i % 5, i % 3 != 1],
+             lambda i: ["blk", 3 + i % 5, i % 3 != 2, dict(plain, **({"impl": ["none"]} if i % 2 else {"expl": ["coll", "list", ["self", ["new", NEW_BLOCKS[1]]]]}))],
+             lambda i: ["shipped"] + SHIPPED[i % len(SHIPPED)]]
+    docs = [DOCS[1], DOCS[2], DOCS[3], DOCS[9], DOCS[3] + DOCS[2]]
+    i = 0
+    # bounded exhaustive: protocol x kind of base class x entry point x argument position, the position in the stack rotating
+    for proto in PROTOS:
+        for bi, base in enumerate(bases):
+            for op in ("parse", "write"):
+                for pos in ("ps", "am"):
+                    i += 1
+                    x = ["x", [proto], base(i)]
+                    st = [[x], [x, ["lib", 2, True]], [["lib", 1, True], x], [["lib", 1, True], x, ["lib", 2, False]],
+                          [x, ["x", [proto], bases[(bi + 1) % 4](i + 1)]], [["shipped"] + SHIPPED[i % len(SHIPPED)], x]][i % 6]
+                    a = {"ps": None, "am": None}
+                    a[pos] = st
+                    inp = dict(op=op, text=docs[i % len(docs)], cont=["list", "tuple", "gen", "iter"][i % 4], **a)
+                    if op == "write":
+                        inp.update(parsed=["default", "raw"][i % 5 == 0], fmt=None)
+                    cases.append({"stream": "proto", "input": inp})
+        for op in ("parse_file", "write_file"):
+            for pos in ("ps", "am"):
+                i += 1
+                x = ["x", [proto], bases[i % 4](i)]
+                a = {"ps": None, "am": None}
+                a[pos] = [[x], [["lib", 1, True], x], [x, ["lib", 2, True]]][i % 3]
+                if op == "parse_file":
+                    fe = ENCODINGS[i % 4]
+                    inp = dict(op=op, text=docs[i % 4], file_enc=fe, read_enc=fe, cont=["list", "tuple", "gen"][i % 3], **a)
+                else:
+                    inp = dict(op=op, text=docs[i % 4], parsed="default", fmt=None, cont=["list", "tuple", "iter"][i % 3],
+                               target=["path", "path_existing", "stringio", "fileobj"][i % 4], enc=ENCODINGS[i % 4], pre=["", "PRE\n"][i % 2], **a)
+                cases.append({"stream": "proto", "input": inp})
+        # the per-block protocol of a decorated probe, judged by expected_transform
+        for base in bases[:3]:
+            i += 1
+            blocks = [["expl", "first"], ["entry", "article", "k1", [["a", "{1}"]], "@article{k1}"], ["string", "me", "{v}", "@string{me}"],
+                      ["preamble", "pp"], ["impl", "free"], ["failed", "broken"], ["expl", "last"]]
+            cases.append({"stream": "proto", "input": dict(op="transform", mw=["x", [proto], base(i)], blocks=blocks)})
+    # random: 1..3 items per stack, 1..3 protocols per decorated item, every position incl. both (-> ValueError)
+    for _ in range(220 * n):
+        ps, am = rxargs(rng)
+        r = rng.random()
+        text, di = rdoc(rng)
+        encs = DOC_ENC.get(di, ENCODINGS if text.isascii() else ["utf-8", "utf-16"])
+        if r < 0.3:
+            inp = dict(op="parse", text=text, ps=ps, am=am, cont=rng.choice(["list", "list", "tuple", "gen", "iter"]))
+        elif r < 0.6:
+            inp = dict(op="write", text=text, parsed=rng.choice(["default", "raw"]), ps=ps, am=am, fmt=rfmt(rng),
+                       cont=rng.choice(["list", "list", "tuple", "gen", "iter"]))
+        elif r < 0.8:
+            fe = rng.choice(encs)
+            inp = dict(op="parse_file", text=text, file_enc=fe, read_enc=fe if rng.random() < 0.8 else None, ps=ps, am=am,
+                       cont=rng.choice(["list", "tuple", "gen"]))
+        else:
+            inp = dict(op="write_file", text=text, parsed=rng.choice(["default", "raw"]), ps=ps, am=am, fmt=rfmt(rng),
+                       cont=rng.choice(["list", "tuple", "iter"]), target=rng.choice(["path", "path_existing", "stringio", "fileobj"]),
+                       enc=rng.choice(encs), pre=rng.choice(["", "PRE\n", "% header\r\n"]))
+        cases.append({"stream": "proto", "input": inp})
+    for _ in range(40 * n):
+        keys, skeys = [], []
+        blocks = [c06.rblock(rng, keys, skeys) for _ in range(rng.choice([0, 1, 2, 3, 5, 8]))]
+        mwd = rxmw(rng, p_x=1.0)
+        while core_d(mwd)[0] == "shipped":
+            mwd = rxmw(rng, p_x=1.0)
+        cases.append({"stream": "proto", "input": dict(op="transform", mw=mwd, blocks=blocks)})
+    return cases
+
+
 def rspec(rng, in_stack):
     r = rng.random()
     if r < (0.6 if in_stack else 0.15):
@@ -253,6 +370,7 @@ def generate(rng, tier):
         else:
             inp["text"] = rdoc(rng)[0]
         cases.append({"stream": "stateful", "input": inp})
+    cases += proto_cases(rng, n)
     return cases
 
 
@@ -291,6 +409,11 @@ def shrink(case):
         if st:
             for i in range(len(st)):
                 mk(**{a: st[:i] + st[i + 1:]})
+            for i in range(len(st)):
+                if st[i][0] == "x":         # fewer protocols on the item
+                    if len(st[i][1]) > 1:
+                        for j in range(len(st[i][1])):
+                            mk(**{a: st[:i] + [["x", st[i][1][:j] + st[i][1][j + 1:], st[i][2]]] + st[i + 1:]})
     if inp.get("fmt"):
         mk(fmt=None)
     if inp.get("blocks"):
@@ -315,8 +438,11 @@ def probes():
     import collections.abc
     from bibtexparser.library import Library
     from bibtexparser.middlewares import BlockMiddleware, LibraryMiddleware
+    from bibtexparser.middlewares.middleware import Middleware
     from bibtexparser.model import Field
+    import copy
     import props.c06 as c06
+    import props.userclasses as userclasses
 
     def tag(b, k):
         b.parser_metadata["trace"] = list(b.parser_metadata.get("trace", [])) + [k]
@@ -331,6 +457,109 @@ def probes():
             for b in library.blocks:
                 tag(b, self.k)
             return library
+
+    class MidTag(Middleware):
+        """A direct subclass of the abstract Middleware: the whole of transform() is its own."""
+
+        def __init__(self, k, inplace):
+            super().__init__(allow_inplace_modification=inplace)
+            self.k = k
+
+        def transform(self, library):
+            if not self.allow_inplace_modification:
+                library = copy.deepcopy(library)
+            for b in library.blocks:
+                tag(b, self.k)
+            return library
+
+    _deco = {}
+
+    def decorate(base, protos):
+        """Subclass of the middleware class `base` that ALSO defines the listed dunder / duck protocols.  None of them is part of
+        the middleware interface: the object is to be applied through transform() like any other.  Every use of a protocol is noted
+        in the instance's __dict__ (diagnostics), every transform() call is counted."""
+        key = (base, tuple(protos))
+        if key in _deco:
+            return _deco[key]
+
+        def note(self, what):
+            self.__dict__.setdefault("_x_log", []).append(what)
+        parent = base
+        ns = {}
+        for p in protos:
+            if p == "call_id":
+                parent = userclasses.get().with_call(parent)         # the shared helper: __call__ hands its argument back
+            elif p == "call_none":
+                def __call__(self, *a, **k):
+                    note(self, "__call__")
+                    return None
+                ns["__call__"] = __call__
+            elif p == "call_raise":
+                def __call__(self, *a, **k):
+                    note(self, "__call__")
+                    raise RuntimeError("this middleware's __call__ is a helper of its own, not a library transformation")
+                ns["__call__"] = __call__
+            elif p == "call_noargs":
+                def __call__(self):
+                    note(self, "__call__")
+                    return self
+                ns["__call__"] = __call__
+            elif p == "iter_empty":
+                def __iter__(self):
+                    note(self, "__iter__")
+                    return iter(())
+                ns["__iter__"] = __iter__
+            elif p == "iter_mw":
+                def __iter__(self):
+                    note(self, "__iter__")
+                    return iter([LibTag(77, True)])
+                ns["__iter__"] = __iter__
+            elif p == "seq":
+                def __len__(self):
+                    note(self, "__len__")
+                    return 1
+
+                def __getitem__(self, i):
+                    note(self, "__getitem__")
+                    if i in (0, -1):
+                        return LibTag(78, True)
+                    raise IndexError(i)
+                ns["__len__"], ns["__getitem__"] = __len__, __getitem__
+            elif p == "len0":
+                def __len__(self):
+                    note(self, "__len__")
+                    return 0
+                ns["__len__"] = __len__
+            elif p == "bool_false":
+                def __bool__(self):
+                    note(self, "__bool__")
+                    return False
+                ns["__bool__"] = __bool__
+            elif p == "eq_true":
+                ns["__eq__"] = lambda self, other: True
+                ns["__ne__"] = lambda self, other: False
+                ns["__hash__"] = lambda self: 0
+            elif p == "unhashable":
+                ns["__eq__"] = lambda self, other: self is other
+                ns["__hash__"] = None
+            elif p in ("getattr", "getattr_none"):
+                def __getattr__(self, name, _id=(p == "getattr")):
+                    if name.startswith("__") or name.startswith("_x_"):
+                        raise AttributeError(name)
+                    note(self, "__getattr__(%s)" % name)
+                    return (lambda *a, **k: (a[0] if a else None)) if _id else (lambda *a, **k: None)
+                ns["__getattr__"] = __getattr__
+            else:
+                raise ValueError(p)
+        up = parent
+
+        def transform(self, library):
+            self.__dict__["_x_n"] = self.__dict__.get("_x_n", 0) + 1
+            return up.transform(self, library)
+        ns["transform"] = transform
+        cls = type("X_%s_%s" % ("_".join(protos), base.__name__), (parent,), ns)
+        _deco[key] = cls
+        return cls
 
     def make_result(spec, block):
         t = spec[0]
@@ -543,15 +772,28 @@ def probes():
             self.volume += len(snap)
             return res
 
-    _PROBES.update(tag=tag, LibTag=LibTag, BlkProbe=BlkProbe, StatefulProbe=StatefulProbe)
+    _PROBES.update(tag=tag, LibTag=LibTag, BlkProbe=BlkProbe, StatefulProbe=StatefulProbe, MidTag=MidTag, decorate=decorate)
     return _PROBES
 
 
-def build_mw(d):
+_BUILT = {"impl": [], "ref": []}      # the decorated objects of the running case: handed to the entry point / used by the composition
+
+
+def build_mw(d, side=None):
     import bibtexparser.middlewares as MW
     P = probes()
+    if d[0] == "x":
+        c = d[2]
+        base = {"lib": P["LibTag"], "mid": P["MidTag"], "blk": P["BlkProbe"]}.get(c[0]) or getattr(MW, c[1])
+        cls = P["decorate"](base, d[1])
+        m = cls(**c[2]) if c[0] == "shipped" else cls(*c[1:])
+        if side is not None:
+            _BUILT[side].append(m)
+        return m
     if d[0] == "lib":
         return P["LibTag"](d[1], d[2])
+    if d[0] == "mid":
+        return P["MidTag"](d[1], d[2])
     if d[0] == "blk":
         return P["BlkProbe"](d[1], d[2], d[3])
     return getattr(MW, d[1])(**d[2])
@@ -560,7 +802,7 @@ def build_mw(d):
 def build_stack(st, cont="list"):
     if st is None:
         return None
-    ms = [build_mw(d) for d in st]
+    ms = [build_mw(d, "impl") for d in st]
     if cont == "tuple":
         return tuple(ms)
     if cont == "gen":
@@ -604,7 +846,8 @@ def enc_spec(s):
 
 
 def enc_mw(d, ident):
-    if d[0] == "lib":
+    d = core_d(d)           # the extra protocols are no part of the middleware interface: the model sees the middleware
+    if d[0] in ("lib", "mid"):
         return [0, d[1]]
     if d[0] == "blk":
         return [1, d[1], [enc_spec(d[3][c]) for c in CLASSES]]
@@ -656,10 +899,10 @@ def ref_stack(full, add, defaults, prepend):
         raise ValueError("both")
     import bibtexparser.middlewares as MW
     if full is not None:
-        base = [(i if d[0] == "shipped" else None, build_mw(d)) for i, d in enumerate(full)]
+        base = [(i if core_d(d)[0] == "shipped" else None, build_mw(d, "ref")) for i, d in enumerate(full)]
     else:
         base = [(ident, getattr(MW, name)(**kw)) for ident, name, kw in defaults]
-    extra = [] if add is None else [(100 + i if d[0] == "shipped" else None, build_mw(d)) for i, d in enumerate(add)]
+    extra = [] if add is None else [(100 + i if core_d(d)[0] == "shipped" else None, build_mw(d, "ref")) for i, d in enumerate(add)]
     return extra + base if prepend else base + extra
 
 
@@ -707,6 +950,7 @@ def impl(case):
     ps, am, cont = inp.get("ps"), inp.get("am"), inp.get("cont", "list")
     ref = Ref()
     tmp = None
+    del _BUILT["impl"][:], _BUILT["ref"][:]
     try:
         if op in ("parse", "parse_file"):
             dres = None
@@ -830,13 +1074,32 @@ def impl(case):
     rec["summary"] = summary
     if cont in ("gen", "iter"):
         rec["tags"].append("one_shot_iterable")
-    if same:
+    # decorated items: transform() of each is called exactly as often as the manual composition calls it - once, or not at
+    # all when nothing is applied (ValueError for both arguments, undecodable file) or an earlier item raised
+    xi, xr = _BUILT["impl"], _BUILT["ref"]
+    n_impl = [m.__dict__.get("_x_n", 0) for m in xi]
+    n_ref = [m.__dict__.get("_x_n", 0) for m in xr] if len(xr) == len(xi) else [0] * len(xi)
+    used = sorted({w for m in xi for w in m.__dict__.get("_x_log", [])})
+    if xi:
+        protos = sorted({p for d in (ps or []) + (am or []) if d[0] == "x" for p in d[1]})
+        rec["tags"] += ["proto_" + p for p in protos] + ["xbase_" + b for b in sorted({d[2][0] for d in (ps or []) + (am or []) if d[0] == "x"})]
+        rec["tags"].append("decorated_items_%d" % min(len(xi), 4))
+        if used:
+            rec["tags"].append("extra_protocol_used_by_library")
+    if same and n_impl != n_ref:
+        rec["oracle"] = {"ok": False, "detail": "%s(...): transform() of the decorated stack items was called %s time(s), the composition "
+                                                "(each item of the requested stack exactly once, in order) calls them %s time(s); protocols the "
+                                                "library used on them: %s" % (op, n_impl, n_ref, used)}
+    elif same:
         rec["oracle"] = {"ok": True, "detail": ""}
     else:
         what = ("%s(...) differs from the manual composition (split / given-or-default stack in order / writer): got %s, "
                 "composition gives %s" % (op, summary, ("raised code %s" % exp[1]) if exp[0] == "exc" else
                                           (repr(exp[1])[:200] if isinstance(exp[1], str) else
                                            repr([type(b).__name__ + ":" + str(b.parser_metadata.get("trace")) for b in exp[1].blocks])[:200])))
+        if xi:
+            what += ("; the stack holds middleware objects that also define %s: transform() calls on them %s (composition: %s), protocols "
+                     "the library used on them: %s" % (protos, n_impl, n_ref, used))
         rec["oracle"] = {"ok": False, "detail": what}
     rec["sx_in"] = None if (has99(sx_in) or has99(rec["sx_out"])) else sx_in
     n_mw = len(ps or []) + len(am or [])
@@ -858,11 +1121,12 @@ def expected_transform(mwd, blocks):
     from bibtexparser import model as M
     import props.c06 as c06
     P = probes()
+    mwd = core_d(mwd)
     k = mwd[1]
     out = []
     names = {M.Entry: "entry", M.String: "string", M.Preamble: "preamble", M.ExplicitComment: "expl", M.ImplicitComment: "impl"}
     for b in blocks:
-        if mwd[0] == "lib":
+        if mwd[0] in ("lib", "mid"):
             P["tag"](b, k)
             out.append(b)
             continue
@@ -919,6 +1183,9 @@ def impl_transform(inp, rec):
     lib = mk()
     sx_in = [74, enc_mw(mwd, 0), enc_lib(lib)]
     got = implutil.guarded(lambda: build_mw(mwd).transform(lib))
+    if mwd[0] == "x":
+        rec["tags"] += ["proto_" + p for p in mwd[1]] + ["xbase_" + mwd[2][0], "decorated_transform"]
+        mwd = mwd[2]
     if mwd[0] == "shipped":
         exp = got
         sx_in = None
